@@ -51,12 +51,12 @@ Example c12_lost_nonvacuous : accepted ex_sc ex_tr_lost = true /\
   exists s0, run ex_sc (firstn 12 ex_tr_lost) = Some s0 /\ quiescent s0.
 Proof. split; [vm_compute; reflexivity|]. vm_compute. eexists. repeat split; reflexivity. Qed.
 
-(* batch 1 fails at sbatch: its jobs are marked submitted, never run and end up missing *)
+(* both batches fail at sbatch: their jobs are marked submitted, never run and end up missing *)
 Definition ex_tr_sbatch_fail : list event := [
   ECreate 1; ERound 1; ECollect 1 []; EMarkerTouch 1;
-  ESbatch 1 1 0 [(0, []); (1, [0])] (Some 1) None;
-  EUpdate 1 {| sn_jobs := [(0, (SUB, [])); (1, (SUB, [])); (2, (NS, []))]; sn_ids := []; sn_index := 2;
-               sn_submitted := 2; sn_completed := 0 |};
+  ESbatch 1 1 0 [(0, []); (1, [0])] (Some 1) None; ESbatch 1 2 0 [(2, [])] (Some 1) None;
+  EUpdate 1 {| sn_jobs := [(0, (SUB, [])); (1, (SUB, [])); (2, (SUB, []))]; sn_ids := []; sn_index := 3;
+               sn_submitted := 3; sn_completed := 0 |};
   ECheckComplete 1 true; EMarkerRemove 1; ESummary 1 [] [0; 1; 2]; EMarkComplete 1; EDemote 1 ].
 Example c12_nonvacuous : accepted ex_sc ex_tr_sbatch_fail = true.
 Proof. vm_compute. reflexivity. Qed.
